@@ -258,7 +258,7 @@ def _install_native_constructors(I):
 
         return m
 
-    for name, fn in (("pd.DatetimeTZDtype", pd.DatetimeTZDtype), ("pd.CategoricalDtype", pd.CategoricalDtype), ("pd.ArrowDtype", pd.ArrowDtype), ("pl.Datetime", pl.Datetime),
+    for name, fn in (("pd.DatetimeTZDtype", pd.DatetimeTZDtype), ("pd.CategoricalDtype", pd.CategoricalDtype), ("pd.ArrowDtype", pd.ArrowDtype), ("pl.Datetime", pl.Datetime), ("pd.StringDtype", pd.StringDtype),
                      ("pl.Decimal", pl.Decimal), ("pl.Duration", pl.Duration), ("pl.Categorical", pl.Categorical), ("pl.Enum", pl.Enum),
                      ("np.dtype", np.dtype)):
         I.models[id(fn)] = rec(name)
@@ -387,6 +387,21 @@ def gen_polars_categorical(rng):
     return PL.Engine, PL.Categorical(ordering=o), False, pl.Categorical(ordering=o), f"polars Categorical({o!r})"
 
 
+def gen_pandas_string(rng):
+    import pandas as pd
+
+    from pandera.engines import pandas_engine as PE
+
+    storage = rng.choice(["python", "pyarrow"])
+    return PE.Engine, PE.STRING(storage=storage), True, pd.StringDtype(storage), f"pandas STRING(storage={storage!r})"
+
+
+def _post_pandas_string(self, s, a, calls):
+    c = _only(calls, "pd.StringDtype")
+    return {"type_is_StringDtype_of_the_storage": c is not None and len(c[1]) == 1 and c[1][0] is s.attrs0["storage"] and not c[2] and s.attrs["type"] is c[3],
+            "storage_kept": s.attrs["storage"] is s.attrs0["storage"]}
+
+
 def gen_polars_enum(rng):
     import polars as pl
 
@@ -432,6 +447,8 @@ FAMILIES = [
             call=lambda self, I, fn, a: I.call(fn, [a["self"]], {}), post=_post_arrow_timestamp),
     _family("polars_temporal", f"{PL_}:DateTime.__init__", dict(self=_ref(PL_, "DateTime"), time_zone=T.Any, time_unit=T.Opt(T.Any)), gen_polars_temporal,
             call=lambda self, I, fn, a: I.call(fn, [a["self"], False, a["time_zone"], a["time_unit"]], {}), post=_post_polars_datetime),
+    _family("pandas_string_storage", f"{PE_}:STRING.__post_init__", dict(self=_ref(PE_, "STRING", storage=T.OneOf("python", "pyarrow"))), gen_pandas_string,
+            call=lambda self, I, fn, a: I.call(fn, [a["self"]], {}), post=_post_pandas_string),
     _family("polars_decimal", f"{PL_}:Decimal.__init__", dict(self=_ref(PL_, "Decimal"), precision=T.Int, scale=T.Int), gen_polars_decimal,
             call=lambda self, I, fn, a: I.call(fn, [a["self"], a["precision"], a["scale"]], {}),
             post=_post_polars_native("pl.Decimal", lambda a: ((), {"precision": a["precision"], "scale": a["scale"]}))),
